@@ -22,12 +22,14 @@ import QuickAdd.Props.C15
 * `latent_wf`: latent anchoring of a well-formed clock time yields a well-formed, existing calendar date with that clock time;
 * `span_wrapper` / `untrimmed_match_nonempty`: a rule result spans first-to-last argument; no pattern yields an empty match.
 * `digit_groups_in_range` + `capture_in_range`: for **every** shipped pattern, **every** text and every match, the text
-  captured by a group named day / month / hour / minute reads (`int()`) as a number in 1–31 / 1–12 / 0–23 / 0–59 — or
-  contains one of the listed digits this interpreter's `int()` rejects (known finding D6).  Proved by language soundness of
-  the matcher with captures (`mtc_sound`), the finite language of each group body and a kernel evaluation over the
-  regenerated table; `dom1_day_range` carries it to a production.
+  captured by a group named day / month / hour / minute / year reads (`int()`) as a number in 1–31 / 1–12 / 0–23 / 0–59 /
+  0–2999 — or contains one of the listed digits this interpreter's `int()` rejects (known finding D6).  Proved by language
+  soundness of the matcher with captures (`mtc_sound`), the finite language of each group body — enumerated modulo the decimal
+  value of each digit (`canonDigit`, `langOfQ_complete`: some 650 code points are digits, a four-digit group has too many
+  words otherwise) — and a kernel evaluation over the regenerated table; `dom1_day_range` carries it to a production, and
+  `C01.reach_year` to every reachable production (no time value with a year above 9990).
 Partial, named: start < end of the *trimmed* token span relies on no pattern matching only blanks, which the sweep checks on
-every candidate; the year group (`\d\d` over all Unicode digits) is not enumerated.
+every candidate.
 -/
 namespace QuickAdd.C02
 open QuickAdd
@@ -201,14 +203,18 @@ theorem untrimmed_match_nonempty (p : Gen.Pat) (hp : 0 < minLen p.rx) (s : List 
   findAll_nonempty Gen.rxTabs p.rx hp s m hm
 
 /-! ### digit groups of the shipped patterns only capture in-range numbers (`Lemmas/Capture`) -/
-/-- kernel evaluation over the regenerated table: all words of the finite language of every day/month/hour/minute group body -/
+/-- kernel evaluation over the regenerated table: all words (modulo the value of each digit) of the finite language of every
+    day/month/hour/minute/year group body -/
 theorem digit_groups_in_range : tableDigitCheck = true := QuickAdd.digit_groups_in_range
 
-/-- for every shipped pattern, every text and every match: what a day/month/hour/minute group captured is in range -/
+/-- for every shipped pattern, every text and every match: what a day/month/hour/minute/year group captured is in range -/
 theorem capture_in_range (p : Gen.Pat) (hp : p ∈ Gen.table) (n : String) (i : Nat) (hn : (n, i) ∈ p.names) (lo hi : Int) (hf : fieldRange n = some (lo, hi))
     (txt : List Nat) (m : Nat × Nat × Caps) (hm : m ∈ findAll Gen.rxTabs p.rx txt) (s e : Nat) (hc : (i, s, e) ∈ m.2.2) :
     intInRange lo hi ((txt.drop s).take (e - s)) = true :=
   QuickAdd.capture_in_range p hp n i hn lo hi hf txt m hm s e hc
+
+/-- the year groups are among the checked ones -/
+example : fieldRange "year" = some (0, 2999) := by decide
 
 /-- carried to a production: if the token's `day` group holds such a captured text, `ruleDOM1` yields a day in 1–31
     (or raises on the listed exotic digits, never an out-of-range day) -/
